@@ -292,6 +292,12 @@ def c16(ctx):
     _with_mc(ctx, mc, conf)
 
 
+def c17(ctx):
+    ctx.assumptions += LANE_ASSUME + ['width-1 conversions between element sizes: the 32 (source, destination) pairs AVEL defines are executed; the 24 declared-but-undefined pairs are reported by the link probe of C19']
+    _with_mc(ctx, lambda: mc_intlane(ctx, ['C17']),
+             lambda: runner.lane_facts(ctx, 'drv_conv.cpp', 'conv', ALL_GROUPS))
+
+
 CHECKS = {
-    'C01': c01, 'C02': c02, 'C03': c03, 'C04': c04, 'C05': c05, 'C06': c06, 'C07': c07, 'C08': c08, 'C09': c09, 'C10': c10, 'C11': c11, 'C12': c12, 'C13': c13, 'C14': c14, 'C16': c16, 'C15': c15, 'C18': c18, 'C20': c20,
+    'C01': c01, 'C02': c02, 'C03': c03, 'C04': c04, 'C05': c05, 'C06': c06, 'C07': c07, 'C08': c08, 'C09': c09, 'C10': c10, 'C11': c11, 'C12': c12, 'C13': c13, 'C14': c14, 'C16': c16, 'C17': c17, 'C15': c15, 'C18': c18, 'C20': c20,
 }
